@@ -6,7 +6,8 @@ CONSTANT Tier
 Quick == Tier = "quick"
 \* see harness/purity.go for the source trees: shA..shBad are main files in ONE directory sharing lib.tsh -> util.tsh (globals, top-level code) by path,
 \* mut1/mut2 are one and the same path whose imported file is rewritten (two versions) before the call,
-\* copies/copies2 import two different paths with identical bytes (directly / behind two other imports)
+\* copies/copies2 import two different paths with identical bytes (directly / behind two other imports); impcalls/diamondcalls/twicecalls: one caller
+\* with several callees known to two import parsers (import-time calls in two files, a file reached along two paths, one file under two aliases)
 Progs == <<"plain", "dirA", "dirB", "stdmany", "shA", "shB", "shC", "shD", "shBad", "shBadFn", "mut1", "mut2", "strdefA", "strdefB", "strdefC", "nlA", "nlB", "silent0", "silent1", "silent3">>
 Core == {"plain", "dirA", "dirB", "stdmany"}
 Targets == <<"bash", "batch">>
@@ -15,7 +16,7 @@ Op == [prog : {Progs[i] : i \in 1..Len(Progs)}, target : {"bash", "batch"}, mode
 OpName(o) == o.prog \o "." \o o.target \o "." \o o.mode
 \* copied modules: single calls in every mode, pairs among themselves; single calls from a relocated byte-identical copy of the tree
 \* (same process / fresh process) are part of every tier, for every program
-CopyProgs == {"copies", "copies2"}
+CopyProgs == {"copies", "copies2", "impcalls", "diamondcalls", "twicecalls"}
 OpC == [prog : CopyProgs, target : {"bash", "batch"}, mode : {Modes[i] : i \in 1..Len(Modes)}]
 RelocOp == [prog : {Progs[i] : i \in 1..Len(Progs)} \cup CopyProgs, target : {"bash", "batch"}, mode : {"relocated", "relocatedproc"}]
 H1 == {<<a>> : a \in Op \cup OpC \cup RelocOp}
